@@ -680,6 +680,8 @@ pub fn generate(tier: &str, rng: &mut Rng) -> Vec<String> {
     // ---- hreq: the hints of the body the inner service is handed ---------------------------------
     for ct in WEB_CTS {
         for h in 0..4u8 {
+            // `AQ==`: the witness of `C16_request_text_hints_fail_as_found` (4 characters of text, 1 byte of data)
+            out.push(with_tail(format!("hreq {} {}", h, tok(ct)), &[Ev::Data(b"AQ==".to_vec())]));
             out.push(with_tail(format!("hreq {} {}", h, tok(ct)), &[Ev::Data(b"AAAAAAIBAg==".to_vec())]));
             out.push(with_tail(format!("hreq {} {}", h, tok(ct)), &[Ev::Data(b"AAAAAA".to_vec()), Ev::Pending, Ev::Data(b"IBA".to_vec()), Ev::Data(b"g==".to_vec())]));
             out.push(with_tail(format!("hreq {} {}", h, tok(ct)), &[]));
